@@ -691,6 +691,9 @@ impl Database {
                             crate::verif::point("db.map:remove_value");
                             let mut db = self.map.write().unwrap();
                             db.remove(&key);
+                        } else if value.state == ValueStatus::Deleted {
+                            // Already removed (e.g. the primary echoing back a remove that was
+                            // issued on this node): removing it again changes nothing
                         } else {
                             // value.
                             self.set_value_version(
